@@ -403,6 +403,12 @@ impl BlockData {
             .clone()
             .expect("first slice contains a parent, validated in `try_reconstruct_slice`");
         let mut parent_switched = false;
+        // a block can only extend a block from an earlier slot;
+        // the leader signs the parent, so this has to be checked for Byzantine leaders
+        if parent.0 >= slot {
+            warn!("parent slot {} is not before block slot {slot}", parent.0);
+            return ReconstructBlockResult::Error;
+        }
 
         let mut transactions = vec![];
         for (ind, slice) in &self.slices {
@@ -416,6 +422,10 @@ impl BlockData {
                 }
                 if parent_switched {
                     warn!("parent switched more than once");
+                    return ReconstructBlockResult::Error;
+                }
+                if new_parent.0 >= slot {
+                    warn!("parent slot {} is not before block slot {slot}", new_parent.0);
                     return ReconstructBlockResult::Error;
                 }
                 parent_switched = true;
